@@ -237,7 +237,10 @@ func (e *ExpressionAtom) GetSnapshot() string {
 		if e.Negated {
 			buff.WriteString("!")
 		}
-		buff.WriteString(e.ExpressionAtom.GetSnapshot())
+		if e.ArrayMapSelector == nil {
+			// with a selector the inner atom is written below, once
+			buff.WriteString(e.ExpressionAtom.GetSnapshot())
+		}
 	} else if e.FunctionCall != nil && e.ExpressionAtom != nil {
 		buff.WriteString(e.ExpressionAtom.GetSnapshot())
 		buff.WriteString("->")
